@@ -131,6 +131,249 @@ def site_facts(repo_dir):
     return out
 
 
+# ----------------------------------------------------------------------------- site facts
+# The Lean model has a handful of Boolean "site facts" about the source (is the warnings.warn call
+# swapped, is there a rounding guard in front of `assert c <= 0`, ...).  They are read BEHAVIOURALLY:
+# the functions are called on small probe inputs (in a child process on a private copy of the tree when
+# the translator runs, in-process on the staged tree when the check runs).  The static AST/regex read is
+# only a cross-check (`static_agrees`); a refactoring that keeps the behaviour keeps the facts.
+
+GUARD_WITNESSES = [
+    [[0, 1, 6], [4, 0, 0], [2, 0, 0]],
+    [[0, 6, 0, 0, 0], [7, 5, 2, 9, 6], [0, 6, 0, 0, 0], [0, 4, 0, 0, 0], [0, 1, 0, 0, 0]],
+    [[0, 0, 0, 0, 0, 0, 8], [0, 0, 0, 0, 0, 0, 2], [0, 0, 0, 0, 0, 4, 2], [0, 0, 0, 0, 0, 2, 0],
+     [0, 0, 0, 0, 0, 0, 9], [0, 0, 2, 4, 0, 5, 2], [4, 1, 1, 0, 1, 7, 2]],
+]
+SITE_DEFAULTS = {'py': False, 'pyx': False, 'guard': True, 'priorMatrixToArray': True,
+                 'transposeHalfIntLiteral': False, 'transposeTotalSum': False}
+
+
+def _ref_unguarded_c_positive(C, sweeps=400):
+    """plain-float port of the UNGUARDED Prinz sweep: does `c` come out positive somewhere?
+    (tells whether a witness really exercises the rounding guard in this environment)"""
+    import math
+    n = len(C)
+    C = [[float(x) for x in r] for r in C]
+    X = [[C[i][j] + C[j][i] for j in range(n)] for i in range(n)]
+    Xrs = [sum(r) for r in X]
+    Crs = [sum(r) for r in C]
+    for _ in range(sweeps):
+        for i in range(n):
+            tmp = X[i][i]
+            den = Crs[i] - C[i][i]
+            if den > 0:
+                X[i][i] = C[i][i] * (Xrs[i] - X[i][i]) / den
+            Xrs[i] = Xrs[i] + (X[i][i] - tmp)
+        for i in range(n - 1):
+            for j in range(i + 1, n):
+                a = (Crs[i] - C[i][j]) + (Crs[j] - C[j][i])
+                b = Crs[i] * (Xrs[j] - X[i][j]) + Crs[j] * (Xrs[i] - X[i][j]) \
+                    - (C[i][j] + C[j][i]) * (Xrs[i] + Xrs[j] - 2 * X[i][j])
+                c = -(C[i][j] + C[j][i]) * (Xrs[i] - X[i][j]) * (Xrs[j] - X[i][j])
+                if c > 0:
+                    return True
+                v = X[j][i] if a == 0 else (-b + math.sqrt(b * b - 4 * a * c)) / (2 * a)
+                Xrs[i] = Xrs[i] + (v - X[i][j])
+                Xrs[j] = Xrs[j] + (v - X[j][i])
+                X[i][j] = v
+                X[j][i] = v
+    return False
+
+
+def site_probe(builders):
+    """Behavioural read of the site facts on an importable `enspara.msm.builders`.
+    Every entry is True/False, or None when the probe was inconclusive."""
+    import scipy.sparse as sp
+    out = {}
+    C3 = np.array([[3., 1., 0.], [2., 0., 4.], [1., 2., 5.]])
+    # warnings.warn(<category>, <message>) swapped?  -> TypeError at the iteration cap
+    for key, f in (('py', getattr(builders, '_prinz_mle_py', None)), ('pyx', getattr(builders, '_prinz_mle', None))):
+        val = None
+        try:
+            with warnings.catch_warnings(record=True) as w:
+                warnings.simplefilter('always')
+                f(C3.copy(), max_iter=1)
+            if any('Convergence' in x.category.__name__ for x in w):
+                val = False
+        except TypeError as e:
+            if 'category must be a Warning subclass' in str(e):
+                val = True
+        except Exception:  # noqa
+            val = None
+        out[key] = val
+    # rounding guard in front of `assert c <= 0`: witnesses on which the unguarded sweep gets c > 0
+    wit = [np.array(W, dtype=float) for W in GUARD_WITNESSES if _ref_unguarded_c_positive(W)]
+    out['guard_witnesses'] = len(wit)
+    for key, f in (('guard_py', getattr(builders, '_prinz_mle_py', None)),
+                   ('guard_pyx', getattr(builders, '_prinz_mle', None))):
+        val = None
+        if wit:
+            try:
+                with warnings.catch_warnings():
+                    warnings.simplefilter('ignore')
+                    for W in wit:
+                        f(W.copy())
+                val = True
+            except AssertionError:
+                val = False
+            except Exception:  # noqa
+                val = None
+        out[key] = val
+    out['guard'] = None if (out['guard_py'] is None or out['guard_pyx'] is None) else \
+        bool(out['guard_py'] and out['guard_pyx'])
+    # _apply_prior_counts: sparse matrix + ndarray prior -> numpy.matrix left as is?
+    Ci = np.array([[2, 1, 0], [1, 0, 3], [2, 1, 1]])
+    try:
+        with warnings.catch_warnings():
+            warnings.simplefilter('ignore')
+            Co = builders.normalize(sp.csr_matrix(Ci), prior_counts=np.ones((3, 3)), calculate_eq_probs=False)[0]
+        out['priorMatrixToArray'] = not isinstance(Co, np.matrix)
+    except Exception:  # noqa
+        out['priorMatrixToArray'] = None
+    # transpose: C_sym / 2 with an integer divisor truncates integer lil matrices
+    try:
+        Codd = np.array([[0, 19, 19], [17, 0, 5], [4, 0, 0]])
+        with warnings.catch_warnings():
+            warnings.simplefilter('ignore')
+            Co = builders.transpose(sp.lil_matrix(Codd), calculate_eq_probs=False)[0]
+        got = np.asarray(Co.toarray(), dtype=float)
+        half = (Codd + Codd.T) / 2.0
+        out['transposeHalfIntLiteral'] = True if np.array_equal(got, np.floor(half)) and not np.array_equal(got, half) \
+            else (False if np.array_equal(got, half) else None)
+    except Exception:  # noqa
+        out['transposeHalfIntLiteral'] = None
+    # transpose: `C_sym.sum()` without axis fails on a bsr matrix with several blocks larger than 1xk
+    try:
+        Cb = np.array([[5, 1, 0, 2], [3, 2, 1, 0], [0, 4, 1, 1], [1, 0, 2, 6]])
+        A = sp.bsr_matrix(Cb, blocksize=(2, 2))
+        S = A + A.T
+        blocky = sum(1 for d in np.shape(S.data) if d > 1) > 2
+        try:
+            S.sum()
+            scipy_fails = False
+        except ValueError:
+            scipy_fails = True
+        if blocky and scipy_fails:
+            try:
+                with warnings.catch_warnings():
+                    warnings.simplefilter('ignore')
+                    builders.transpose(A, calculate_eq_probs=True)
+                out['transposeTotalSum'] = False
+            except ValueError as e:
+                out['transposeTotalSum'] = True if 'shape too large' in str(e) else None
+        else:
+            out['transposeTotalSum'] = None       # this scipy has no such failure: the flag is unobservable
+    except Exception:  # noqa
+        out['transposeTotalSum'] = None
+    return out
+
+
+_SITE_CHILD = r'''
+import sys, os, json, tempfile, shutil, subprocess
+repo, here = sys.argv[1], sys.argv[2]
+os.environ['VERIF_REPO'] = repo
+sys.path.insert(0, here)
+import logging
+logging.disable(logging.CRITICAL)
+import stage
+d = tempfile.mkdtemp(prefix='enspara_site_')
+try:
+    subprocess.run(['rsync', '-a', '--exclude', '*.so', '--exclude', '__pycache__', '--exclude', '*.c',
+                    os.path.join(repo, 'enspara'), d], check=True)
+    for rel in stage.PYX:                      # extension cache: no lock needed (atomic replace)
+        stage._build_ext(d, rel)
+    sys.path[:0] = [os.path.join(here, 'mpi_stub'), d]
+    from enspara.msm import builders
+    import props.c12 as me
+    print('SITEJSON:' + json.dumps(me.site_probe(builders)))
+finally:
+    shutil.rmtree(d, ignore_errors=True)
+'''
+
+
+def _static_site_facts(repo_dir):
+    """the earlier AST/regex read; best effort, used as a cross-check only"""
+    out = {}
+    try:
+        st = site_facts(repo_dir)
+        out.update({'py': st['py'], 'pyx': st['pyx'], 'guard': st['guard']})
+    except Exception as e:  # noqa
+        out['static_mle_error'] = str(e)[:200]
+    try:
+        from . import c04 as _c04
+        sb = _c04.builders_site_facts(repo_dir)
+        out.update({k: sb[k] for k in ('priorMatrixToArray', 'transposeHalfIntLiteral', 'transposeTotalSum')})
+    except Exception as e:  # noqa
+        out['static_builders_error'] = str(e)[:200]
+    return out
+
+
+def site_info(repo_dir):
+    """All site facts of the tree at `repo_dir`: dynamic probe in a child process on a private copy
+    (cached by the hashes of the files involved), static read as cross-check, defaults = the facts of the
+    repaired code.  Never raises."""
+    import hashlib
+    import json
+    import subprocess
+    import sys
+    notes = []
+    dyn = None
+    try:
+        h = hashlib.sha256()
+        for rel in ('enspara/msm/builders.py', 'enspara/msm/libmsm.pyx', 'enspara/msm/transition_matrices.py',
+                    'enspara/msm/__init__.py', 'enspara/msm/msm.py', 'enspara/exception.py', 'enspara/__init__.py'):
+            try:
+                with open(os.path.join(repo_dir, rel), 'rb') as f:
+                    h.update(f.read())
+            except OSError:
+                h.update(b'missing:' + rel.encode())
+        import scipy
+        h.update(('%s|%s|%s|probe-v2' % (np.__version__, scipy.__version__, sys.version)).encode())
+        here = os.path.dirname(os.path.dirname(os.path.abspath(__file__)))
+        cdir = os.path.join(os.path.dirname(here), '.cache', 'msm_site')
+        cpath = os.path.join(cdir, h.hexdigest()[:24] + '.json')
+        if os.path.exists(cpath):
+            try:
+                with open(cpath) as f:
+                    dyn = json.load(f)
+            except Exception:  # noqa
+                dyn = None
+        if dyn is None:
+            r = subprocess.run([sys.executable, '-c', _SITE_CHILD, repo_dir, here], capture_output=True, text=True,
+                               timeout=600, env={k: v for k, v in os.environ.items() if k != 'PYTHONPATH'})
+            lines = [l for l in r.stdout.split('\n') if l.startswith('SITEJSON:')]
+            if r.returncode != 0 or not lines:
+                raise RuntimeError((r.stderr or r.stdout)[-500:])
+            dyn = json.loads(lines[-1][9:])
+            os.makedirs(cdir, exist_ok=True)
+            tmp = cpath + '.tmp%d' % os.getpid()
+            with open(tmp, 'w') as f:
+                json.dump(dyn, f)
+            os.replace(tmp, cpath)
+    except Exception as e:  # noqa
+        notes.append('dynamic probe failed: %s' % str(e)[-300:])
+        dyn = None
+    try:
+        static = _static_site_facts(repo_dir)
+    except Exception as e:  # noqa
+        static = {}
+        notes.append('static read failed: %s' % str(e)[:200])
+    facts, source, agrees = {}, {}, True
+    for k, default in SITE_DEFAULTS.items():
+        d = None if dyn is None else dyn.get(k)
+        s = static.get(k)
+        if d is not None:
+            facts[k], source[k] = bool(d), 'dynamic'
+            if s is not None and bool(s) != bool(d):
+                agrees = False
+        elif s is not None:
+            facts[k], source[k] = bool(s), 'static'
+        else:
+            facts[k], source[k] = default, 'default'
+    return {'facts': facts, 'source': source, 'static_agrees': agrees, 'static': static, 'dynamic': dyn,
+            'notes': notes}
+
+
 def _write_if_changed(path, text):
     old = None
     if os.path.exists(path):
@@ -145,13 +388,19 @@ def _write_if_changed(path, text):
 
 
 def translate(repo_dir, gen_dir):
-    facts = site_facts(repo_dir)
+    """never raises: on any trouble the facts of the repaired code are written and the trouble is reported"""
+    try:
+        info = site_info(repo_dir)
+    except Exception as e:  # noqa
+        info = {'facts': dict(SITE_DEFAULTS), 'source': {}, 'static_agrees': None, 'notes': ['site_info: %s' % e]}
+    facts = info['facts']
     text = '''/-! GENERATED by harness/props/c12.py:translate from enspara/msm/builders.py and
-enspara/msm/libmsm.pyx — do not edit.  Facts about the `warnings.warn` call sites of the
-two Prinz estimators: `true` when the call passes the warning *class* as the message and the
-text as the category (`warnings.warn(exception.ConvergenceWarning, "...")`), which makes
+enspara/msm/libmsm.pyx (behavioural probe of the two estimators, static read as cross-check) — do
+not edit.  Facts about the two Prinz estimators:
+`warnSwapped*`: `true` when the `warnings.warn` call passes the warning *class* as the message and
+the text as the category (`warnings.warn(exception.ConvergenceWarning, "...")`), which makes
 CPython raise `TypeError` instead of warning.
-`cRoundingGuard`: both sources reset a tiny positive `c` to zero in front of `assert c <= 0`
+`cRoundingGuard`: both estimators reset a tiny positive `c` to zero in front of `assert c <= 0`
 (`if 0 < c <= 1e-9 * (C[i, j] + C[j, i]) * X_rs[i] * X_rs[j]: c = 0.0`). -/
 namespace Ens.Generated.MleSite
 def warnSwappedPy : Bool := %s
@@ -160,9 +409,18 @@ def cRoundingGuard : Bool := %s
 end Ens.Generated.MleSite
 ''' % ('true' if facts['py'] else 'false', 'true' if facts['pyx'] else 'false',
        'true' if facts['guard'] else 'false')
-    changed = _write_if_changed(os.path.join(gen_dir, 'MleSite.lean'), text)
-    return {'summary': 'MleSite: warnSwappedPy=%s warnSwappedPyx=%s cRoundingGuard=%s%s' %
-            (facts['py'], facts['pyx'], facts['guard'], ' (rewritten)' if changed else ''), 'facts': facts}
+    try:
+        changed = _write_if_changed(os.path.join(gen_dir, 'MleSite.lean'), text)
+    except Exception as e:  # noqa
+        changed = False
+        info.setdefault('notes', []).append('write failed: %s' % e)
+    return {'summary': 'MleSite: warnSwappedPy=%s warnSwappedPyx=%s cRoundingGuard=%s%s [%s; static_agrees=%s]%s' %
+            (facts['py'], facts['pyx'], facts['guard'], ' (rewritten)' if changed else '',
+             '/'.join(sorted(set(info.get('source', {}).values()))) or 'default', info.get('static_agrees'),
+             (' notes: ' + '; '.join(info['notes'])) if info.get('notes') else ''),
+            'facts': {'py': facts['py'], 'pyx': facts['pyx'], 'guard': facts['guard']},
+            'static_agrees': info.get('static_agrees'), 'source': info.get('source'), 'all_facts': facts,
+            'notes': info.get('notes', [])}
 
 
 # ----------------------------------------------------------------------------- helpers
@@ -818,12 +1076,14 @@ def warn_site_check(ctx):
         ctx.tag('max_iter=0')
         compare_with_model(ctx, C, impl, got, m, '%s estimator with max_iter=0' % impl,
                            dict(case_dict(C, 'cap'), via=impl, max_iter=0))
-    # the generated site facts the Lean theorems were built with must be the current source's
-    import stage
-    facts = site_facts(stage.REPO)
+    # the generated site facts the Lean model was built with must be the behaviour of the staged code
+    pr = site_probe(builders)
     site = ctx.driver([{'op': 'C12.site'}])[0]['ok']
-    if site != facts:
-        ctx.disagreement('generated MleSite facts differ from the source', {'site': site, 'source': facts})
+    facts = {'py': pr['py'], 'pyx': pr['pyx'], 'guard': pr['guard']}
+    for k_, v_ in facts.items():
+        if v_ is not None and bool(site.get(k_)) != bool(v_):
+            ctx.disagreement('generated MleSite fact %s=%s differs from the behaviour of the staged code (%s)'
+                             % (k_, site.get(k_), v_), {'site': site, 'probe': pr})
     ctx.note('warn_call_sites', facts)
 
 
